@@ -418,8 +418,10 @@ if __name__ == "__main__":
         print(json.dumps(dict(types=len(types), properties=len(props), type_accessor_contracts=nfun, lemma_failures=bad)))
     elif sys.argv[1] in ("c12types", "c12ser", "c12ser-quick"):
         only = set(sys.argv[4].split(",")) if len(sys.argv) > 4 else None
-        n = emit_c12_types(repo, types, props, anc, sys.argv[3], only, serialize=sys.argv[1] != "c12types",
-                           maxprops=20 if sys.argv[1] == "c12ser-quick" else None)
+        if sys.argv[1] == "c12ser-quick" and only is None:
+            # quick tier: a typeless type, the two Link types, the base Object and a plain Note; thorough tier: all 63
+            only = {"PublicKey", "Link", "Mention", "Object", "Note"}
+        n = emit_c12_types(repo, types, props, anc, sys.argv[3], only, serialize=sys.argv[1] != "c12types")
         print(json.dumps(dict(types=len(types), properties=len(props), type_decoder_contracts=n, lemma_failures=[])))
     elif sys.argv[1] == "c14":
         emit_c14(types, sys.argv[3])
